@@ -402,8 +402,10 @@ package bigbuff
 //@   inv mutex off : b.offset >= 0
 //@   inv mutex win : all(i, 0, len(b.buffer), b.buffer[i] == log(b, b.offset + i))
 //@   inv mutex cons : forall(k, ref, *consumer, has(b.consumers, k) ==> b.consumers[k] >= 0)
-//@   inv mutex cleaner : b.cleaner != nil && b.cleaner.Cleaner != nil && b.cleaner.Cooldown >= 0
-//@   inv mutex wired : b.cond != nil && b.consumers != nil && b.ctx != nil && b.cancel != nil && b.done != nil
+//@   # the zero Buffer is usable: everything is set up by ensure() on first use (b.cond is created last), so these two
+//@   # invariants hold from then on; every method calls ensure() first, which is what makes them available
+//@   inv mutex cleaner : b.cond != nil ==> b.cleaner != nil && b.cleaner.Cleaner != nil && b.cleaner.Cooldown >= 0
+//@   inv mutex wired : b.cond != nil ==> b.consumers != nil && b.ctx != nil && b.cancel != nil && b.done != nil
 
 //@ type consumer as c
 //@   guard mutex : offset
@@ -411,7 +413,7 @@ package bigbuff
 //@   notify-on-change mutex
 //@   frozen : cond done ctx cancel producer
 //@   def buf(c) = as(c.producer, *Buffer)
-//@   objinv wired : c.done != nil && c.cancel != nil && c.ctx != nil && c.cond != nil && c.producer != nil && buf(c) != nil && (!oncedone(c.close) ==> !closed(c.done))
+//@   objinv wired : c.done != nil && c.cancel != nil && c.ctx != nil && c.cond != nil && c.producer != nil && buf(c) != nil && buf(c).cond != nil && (!oncedone(c.close) ==> !closed(c.done))
 //@   inv mutex delta : c.offset >= 0
 
 //@ type Exclusive as e
@@ -451,7 +453,7 @@ package bigbuff
 //@   # The body applies a slice of closures under the lock; its functional postcondition is not verified
 //@   # (closure slices are outside the engine's reach) and is an assumed contract at call sites.
 //@   panics nilrecv : b == nil
-//@   ensures inited : b.ctx != nil && b.cancel != nil && b.consumers != nil && b.done != nil && b.cleaner != nil && b.cond != nil
+//@   assumes inited : b.ctx != nil && b.cancel != nil && b.consumers != nil && b.done != nil && b.cleaner != nil && b.cond != nil
 
 //@ func (*Buffer).get
 //@   props C01 C03 C05 C12
@@ -490,6 +492,8 @@ package bigbuff
 //@   action mutex
 //@   assume-at-release history : all(j, 0, len(values), log(b, old(end(b)) + j) == values[j])
 //@   ensures closed [C12,C01] : ret == nil ==> lasterr(b.ctx) == nil
+//@   # a cancelled caller context puts nothing
+//@   at-call (*sync.RWMutex).Lock#0 callerctx : ctx != nil ==> lasterr(ctx) == nil
 //@   ensures err_nop : ret != nil ==> unchanged(b.buffer, b.offset)
 //@   ensures appended : ret == nil ==> end(b) == old(end(b)) + len(values) && b.offset == old(b.offset) && all(j, 0, len(values), log(b, old(end(b)) + j) == values[j])
 //@   ensures kept : ret == nil ==> all(i, 0, old(len(b.buffer)), b.buffer[i] == old(b.buffer[i]))
@@ -520,12 +524,20 @@ package bigbuff
 
 //@ func (*Buffer).NewConsumer$1
 //@   props C12
+//@   modular
+//@   maypanic
+//@   requires wired : c != nil && c.ctx != nil
+//@   # the consumer closes itself as soon as its context (a child of the buffer's) is cancelled
+//@   at-call (*consumer).Close#0 aftercancel : cancelled(c.ctx) && arg0 == c
+//@   ensures closed : icalls("(*consumer).Close") == 1
 
 //@ func (*Buffer).Diff
 //@   maypanic
 //@   props C02 C03
 //@   action mutex
 //@   ensures foreign : !ret1 ==> ret0 == 0
+//@   # completeness: a registered consumer of this buffer always gets its difference
+//@   ensures own : is(c, *consumer) && as(c, *consumer) != nil && as(c, *consumer).producer == box(b) && has(b.consumers, as(c, *consumer)) ==> ret1
 //@   ensures value : ret1 ==> is(c, *consumer) && has(b.consumers, as(c, *consumer)) && ret0 == len(b.buffer) - (b.consumers[as(c, *consumer)] + as(c, *consumer).offset - b.offset)
 //@   ensures frame : unchanged(b.buffer, b.offset)
 
@@ -581,7 +593,7 @@ package bigbuff
 //@   props C01 C02 C05 C12
 //@   action mutex
 //@   holds W : c.mutex
-//@   requires known : b != nil && c != nil
+//@   requires known : b != nil && c != nil && b.cond != nil
 //@   ensures errs : ret2 != nil ==> ret0 == nil
 //@   ensures sync : ret2 == nil && ret0 == nil ==> has(b.consumers, c) && b.offset <= b.consumers[c] + offset && b.consumers[c] + offset < end(b) && ret1 == log(b, b.consumers[c] + offset)
 //@   ensures async : ret0 != nil ==> ret2 == nil && chancap(ret0) == 1 && spawned("(*Buffer).getAsync$1") == 1 && !closed(ret0) && sent(ret0) == 0
@@ -751,13 +763,23 @@ package bigbuff
 
 //@ func (*Buffer).Range
 //@   props C02
+//@   maypanic
 //@   ensures foreign : !is(c, *consumer) ==> ret != nil
+//@   ensures nilfn : fn == nil ==> ret != nil
+//@   # a consumer of this buffer with something to read is ranged over by the package-level Range, with the caller's ctx
+//@   ensures ranged : icalls("Range") == 1 ==> ret == ilast("Range", 0) && icalls("(*Buffer).Diff") == 1 && ilast("(*Buffer).Diff", 1) && ilast("(*Buffer).Diff", 0) > 0
+//@   ensures nothing : fn != nil && icalls("(*Buffer).Diff") == 1 && (!ilast("(*Buffer).Diff", 1) || ilast("(*Buffer).Diff", 0) <= 0) ==> ret == nil && icalls("Range") == 0
+//@   ensures own : fn != nil && is(c, *consumer) && as(c, *consumer) != nil && as(c, *consumer).producer == box(b) ==> icalls("(*Buffer).Diff") == 1
+//@   at-call Range#0 forward : arg0 == ctx && arg1 == c
 
 //@ func (*Buffer).Range$1
 //@   props C02
 //@   modular
 //@   requires wired : fn != nil
 //@   ensures onlyiffn : ret ==> lastres(fn, 0)
+//@   # the iteration goes on exactly while fn wants more and the consumer still has something to read
+//@   ensures more : lastres(fn, 0) ==> icalls("(*Buffer).Diff") == 1 && ret == (ilast("(*Buffer).Diff", 1) && ilast("(*Buffer).Diff", 0) > 0)
+//@   at-call dynamic#0 args : arg0 == index && arg1 == value
 
 //@ func (*Channel).pending
 //@   props C13
@@ -767,7 +789,10 @@ package bigbuff
 //@ func (*Buffer).cleanup
 //@   maypanic
 //@   props C04 C12 C01
-//@   requires recv : b != nil
+//@   requires recv : b != nil && b.cond != nil
+//@   # whatever ends the cleanup goroutine (context cancelled, or a panicking cleaner), the buffer is closed
+//@   ensures closes : icalls("(*Buffer).Close") == 1
+//@   ensures-panic closes_p : icalls("(*Buffer).Close") == 1
 //@   loop WaitCond>0 invariant mon : inv(b.mutex) && heldW(b.mutex) && mutex != nil
 
 //@ # The cooldown state machine: `timer` (non-nil while cooling down) and `broadcast` (a run was skipped while
@@ -777,7 +802,7 @@ package bigbuff
 //@   modular
 //@   holds W : b.mutex
 //@   guard-local mutex : timer broadcast
-//@   requires wired : b != nil && mutex != nil && inv(b.mutex)
+//@   requires wired : b != nil && mutex != nil && inv(b.mutex) && b.cond != nil
 //@   # cooling down: the run is skipped but remembered, so that the timer goroutine re-broadcasts
 //@   ensures skipped [C04] : old(timer) != nil ==> broadcast && timer == old(timer) && icalls("(*Buffer).cleanupLogic") == 0 && spawned("(*Buffer).cleanup$1$1") == 0
 //@   # otherwise the cleaner runs exactly once, now
@@ -981,7 +1006,7 @@ package bigbuff
 //@   # the monitor invariant `cleaner` (non-nil Cleaner, Cooldown >= 0) is re-established at the release: an
 //@   # invalid config is rejected before it is stored
 //@   ensures rejected : config.Cleaner == nil || config.Cooldown < 0 ==> ret != nil
-//@   ensures stored : config.Cleaner != nil && config.Cooldown >= 0 ==> ret == nil
+//@   ensures stored : config.Cleaner != nil && config.Cooldown >= 0 ==> ret == nil && b.cleaner != nil && b.cleaner.Cleaner == config.Cleaner && b.cleaner.Cooldown == config.Cooldown
 
 //@ func (*Buffer).CleanerConfig
 //@   props C04 C11
